@@ -36,8 +36,16 @@ class Polynomial(Vector):
         if (len(args) == 1 and len(keywords) == 0 and
             isinstance(args[0], Vector)):
 
+                # The new object needs dictionaries of its own; otherwise a
+                # derivative inserted into either object later on appears in the
+                # derivs of the other without its "d_d" attribute
                 for (key, value) in args[0].__dict__.items():
-                    self.__dict__[key] = value
+                    if key == '_derivs_':
+                        self.__dict__[key] = value.copy()
+                    elif key == '_cache_':
+                        self.__dict__[key] = {}
+                    else:
+                        self.__dict__[key] = value
 
                 # Convert derivatives to class Polynomial if necessary; the new
                 # object gets its own dictionaries
